@@ -63,7 +63,13 @@ static void run_config(const Config & c, uint64_t seed, long n_iid, int n_grid)
   int rlevelE;
   vf_getenrange_(&re1, &re2, &rtoall, &rlevelE);
 
-  bxdecay0::bbpars pars;
+  // Half of the shards run every configuration on ONE bbpars object that is never reset between configurations - as the reference
+  // does with its common blocks, and as a user of the plumbing API (genbbsub) may: whatever an earlier, larger configuration left in
+  // the tables must not show through.  The other half uses a fresh object per configuration.
+  static bxdecay0::bbpars shared_pars;
+  bxdecay0::bbpars fresh_pars;
+  bxdecay0::bbpars & pars = getenv("VERIF_C02_SHARED_PARS") ? shared_pars : fresh_pars;
+  pars.toallevents = 1.0; // exactly what the accessor does to the reference before every configuration (vf_setenrange)
   pars.ebb1 = c.e1;
   pars.ebb2 = c.e2;
   pars.chi_GTw = nme[0]; pars.chi_Fw = nme[1]; pars.chip_GT = nme[2]; pars.chip_F = nme[3];
